@@ -156,6 +156,10 @@ Proof.
   apply filter_ext. intros j. destruct (H j) as [_ ->]. reflexivity.
 Qed.
 
+Lemma sameS_trans a b c : sameS a b -> sameS b c -> sameS a c.
+Proof.
+  intros (A1 & A2 & A3) (B1 & B2 & B3). split; [congruence|]. split; [congruence|]. intros t. destruct (A3 t), (B3 t). split; congruence.
+Qed.
 (* the parent is found on the prev chain, which goes down: the fuel and later tasks do not matter *)
 Lemma pf_agree e e' lvl n : nodes e' = nodes e -> (forall q, q < n -> tk e' q = tk e q) ->
   (forall q, q < n -> match t_prev (tk e q) with Some p => p < q | None => True end) ->
@@ -171,7 +175,7 @@ Qed.
 
 (* ---------- the invariants ---------- *)
 Definition okst (s : TaskState) : bool :=
-  match s with SNone | SReady | SRunning | SInterrupt | SCompleted | SSubmitted | SRemoved | SSkipped => true | _ => false end.
+  match s with SNone | SReady | SRunning | SInterrupt | SCompleted | SSubmitted | SRemoved | SSkipped | SAborted => true | _ => false end.
 Definition opn (e : eng) (t : nat) : Prop := is_completed (st e t) = false.
 (* why an open task is not forgotten: it is queued, or it waits for a client, or it runs over an open task of its own *)
 Definition clause (e : eng) (t : nat) : Prop :=
@@ -841,18 +845,16 @@ Proof.
 Qed.
 
 Lemma Prog_close_act site e i s : Good e -> i < ntasks e -> opn e i -> kind e i = KAct ->
-  (s = SCompleted \/ s = SSubmitted \/ s = SRemoved \/ s = SSkipped) ->
+  is_completed s = true -> okst s = true ->
   let e1 := set_state site e i s in
   SI e1 /\ PX (fun t => parent e1 i = Some t /\ st e1 t = SRunning) e1 /\ st e1 i = s /\ kind e1 i = KAct /\ i < ntasks e1 /\
   (forall pp, parent e1 i = Some pp -> st e1 pp = SRunning /\ nochild e1 pp).
 Proof.
-  intros [H P] Hi Ho Hk Hs e1.
-  assert (Hc : is_completed s = true) by (destruct Hs as [-> | [-> | [-> | ->]]]; reflexivity).
-  assert (Hok : okst s = true) by (destruct Hs as [-> | [-> | [-> | ->]]]; reflexivity).
+  intros [H P] Hi Ho Hk Hc Hok e1.
   assert (HS : sameS e e1) by apply sameS_set_state.
   assert (H1 : SI e1).
   { apply SI_ss; auto.
-    - destruct Hs as [-> | [-> | [-> | ->]]]; discriminate.
+    - intros ->. discriminate.
     - intros Hf. congruence.
     - intros _. apply nochild_act; [apply (si_a e H) | exact Hk]. }
   split; [exact H1|]. split; [|split; [|split; [|split]]].
@@ -882,8 +884,206 @@ Proof.
   intros Hl. unfold close_open. induction l as [|a l IH]; cbn [fold_left]; [reflexivity|].
   rewrite (Hl a (or_introl eq_refl)). apply IH. intros; apply Hl; now right.
 Qed.
+Lemma has_parent e j : SIa e -> 0 < j -> j < ntasks e -> exists p, parent e j = Some p.
+Proof.
+  intros H Hj0 Hj. unfold parent.
+  assert (Hl : 1 <= n_level (tnode e j)).
+  { rewrite (SIa_level e j H Hj). destruct (sia_task e H j Hj) as (_ & _ & _ & Hwf). specialize (Hwf Hj0). destruct (kind e j); cbn [lvl_of]; try lia. congruence. }
+  assert (G : forall q f, q < f -> q < ntasks e -> exists p, parent_from f e (n_level (tnode e j)) (Some q) = Some p).
+  { induction q as [q IH] using lt_wf_ind. intros f Hf Hq. destruct f as [|f]; [lia|]. cbn [parent_from].
+    destruct (Nat.ltb_spec (n_level (tnode e q)) (n_level (tnode e j))) as [Hlt|Hge]; [eauto|].
+    destruct q as [|q].
+    - exfalso. rewrite (SIa_level e 0 H Hq), (SIa_root_kind e H) in Hge. cbn [lvl_of] in Hge. lia.
+    - destruct (sia_prev e H (S q) ltac:(lia) Hq) as (r & -> & Hr & _). apply IH; lia. }
+  destruct (sia_prev e H j Hj0 Hj) as (q & -> & Hq & _). apply G; unfold ntasks in *; lia.
+Qed.
+(* ---------- abort: the act, then its step, then the workflow are closed; nothing else is open ---------- *)
+Lemma act_parent_step e i pp : SIa e -> i < ntasks e -> kind e i = KAct -> parent e i = Some pp -> kind e pp = KStep.
+Proof.
+  intros H Hi Hk Hp. unfold parent in Hp. rewrite (SIa_level e i H Hi), Hk in Hp. cbn [lvl_of] in Hp.
+  assert (G : forall f c, c < ntasks e -> kind e c = KAct -> parent_from f e 2 (t_prev (tk e c)) = Some pp -> kind e pp = KStep).
+  { induction f as [|f IH]; intros c Hc Hkc Hf; [discriminate|].
+    assert (Hc0 : 0 < c). { destruct c; [|lia]. rewrite (SIa_root_kind e H) in Hkc. discriminate. }
+    destruct (sia_prev e H c Hc0 Hc) as (q & Hq & Hlt & _ & Halt). rewrite Hq in Hf. cbn [parent_from] in Hf.
+    assert (Hqn : q < ntasks e) by lia. rewrite (SIa_level e q H Hqn) in Hf.
+    destruct Halt as [[A B] | [A _]].
+    - rewrite Hkc in B. destruct (kind e q) eqn:Ekq; cbn [child_kind] in B; try discriminate; try contradiction.
+      + exfalso. pose proof (SIa_fnode e q H Hqn) as F. unfold frag_node in F. repeat (apply andb_true_iff in F as [F ?]).
+        unfold kind in Ekq. rewrite Ekq in *. discriminate.
+      + cbn [lvl_of] in Hf. change (1 <? 2) with true in Hf. inversion Hf; subst q. exact Ekq.
+    - rewrite Hkc in A. rewrite <- A in Hf. cbn [lvl_of] in Hf. change (2 <? 2) with false in Hf. apply (IH q Hqn); auto. }
+  apply (G _ i Hi Hk Hp).
+Qed.
+Lemma step_parent_root e p g : SIa e -> p < ntasks e -> kind e p = KStep -> parent e p = Some g -> g = 0.
+Proof.
+  intros H Hp Hk Hg. destruct (parent_level e p g H Hp Hg) as [Hlt Hlv]. rewrite Hk in Hlv. cbn [lvl_of] in Hlv.
+  destruct (Nat.eq_dec g 0) as [->|Hn]; [reflexivity|]. exfalso.
+  destruct (sia_task e H g ltac:(lia)) as (_ & _ & _ & Hwf). specialize (Hwf ltac:(lia)).
+  destruct (kind e g); cbn [lvl_of] in Hlv; try lia. congruence.
+Qed.
+(* what is open besides a just-closed act: its step and the workflow *)
+Lemma open_after_act_closed e i pp : SI e -> i < ntasks e -> kind e i = KAct -> is_completed (st e i) = true -> parent e i = Some pp ->
+  st e pp = SRunning -> nochild e pp -> forall t, t < ntasks e -> opn e t -> t = pp \/ t = 0.
+Proof.
+  intros H Hi Hk Hc Hp Hr Hnc.
+  assert (Kpp : kind e pp = KStep) by (apply (act_parent_step e i pp H Hi Hk Hp)).
+  assert (Hpp : pp < ntasks e) by (pose proof (parent_lt e i pp (SI_W e H) Hi Hp); lia).
+  assert (Hpp0 : 0 < pp) by (destruct pp; [rewrite (SI_root_kind e H) in Kpp; discriminate | lia]).
+  destruct (has_parent e pp H Hpp0 Hpp) as (g & Hg). pose proof (step_parent_root e pp g H Hpp Kpp Hg). subst g.
+  assert (Opp : opn e pp) by (unfold opn; rewrite Hr; reflexivity).
+  assert (Hstep : forall t, t < ntasks e -> opn e t -> kind e t = KStep -> t = pp).
+  { intros t Ht Ho Kt. assert (Ht0 : 0 < t) by (destruct t; [rewrite (SI_root_kind e H) in Kt; discriminate | lia]).
+    destruct (has_parent e t H Ht0 Ht) as (g & Hg'). pose proof (step_parent_root e t g H Ht Kt Hg'). subst g.
+    apply (si_one e H t pp 0); auto. }
+  intros t Ht Ho. destruct (kind e t) eqn:Kt.
+  - right. destruct (Nat.eq_dec t 0) as [->|Hn]; [reflexivity|]. exfalso. destruct (si_task e H t Ht) as (_ & _ & _ & Hwf). apply Hwf; [lia | exact Kt].
+  - exfalso. pose proof (SI_fnode e t H Ht) as F. unfold frag_node in F. repeat (apply andb_true_iff in F as [F ?]). unfold kind in Kt. rewrite Kt in *. discriminate.
+  - left. now apply Hstep.
+  - exfalso. assert (Ht0 : 0 < t) by (destruct t; [rewrite (SI_root_kind e H) in Kt; discriminate | lia]).
+    destruct (has_parent e t H Ht0 Ht) as (q & Hq). pose proof (act_parent_step e t q H Ht Kt Hq) as Kq.
+    assert (Hqn : q < ntasks e) by (pose proof (parent_lt e t q (SI_W e H) Ht Hq); lia).
+    pose proof (si_up e H t q Ht Hq Ho) as Hqr. assert (Oq : opn e q) by (unfold opn; rewrite Hqr; reflexivity).
+    pose proof (Hstep q Hqn Oq Kq). subst q. apply (Hnc t Ht Hq Ho).
+Qed.
 Lemma fuel_ge e : exists f, fuel_of e = S (S (S (S f))). Proof. unfold fuel_of. eexists. cbn [Nat.add]. reflexivity. Qed.
 Lemma teq_ret_ok e : teq e (ret_ok e). Proof. unfold ret_ok. eapply teq_trans; [apply teq_persist | apply teq_add_ev]. Qed.
+Lemma children_closed e t : SI e -> t < ntasks e -> st e t = SRunning -> nochild e t ->
+  forall c, In c (children e t) -> is_completed (st e c) = true.
+Proof.
+  intros H Ht Hr Hnc c Hc. destruct (is_completed (st e c)) eqn:Eo; [reflexivity|]. exfalso.
+  pose proof (children_lt _ _ _ Hc) as Hcn. pose proof (children_prev _ _ _ Hc) as Hpr. pose proof (children_gt _ _ _ (SI_W e H) Hc) as Hgt.
+  destruct (si_prev e H c ltac:(lia) Hcn) as (q & A & B & C & D). rewrite Hpr in A. inversion A; subst q.
+  destruct D as [[D1 D2] | [_ D2]]; [|rewrite Hr in D2; discriminate].
+  apply (Hnc c Hcn); [apply (parent_child e c t (si_a e H)); auto; lia | exact Eo].
+Qed.
+Lemma sweep_noop e skip : (forall t, t < ntasks e -> is_completed (st e t) = true \/ In t skip) -> abort_sweep e skip = e.
+Proof.
+  intros Hall. unfold abort_sweep.
+  assert (G : forall l, (forall t, In t l -> t < ntasks e) ->
+            fold_left (fun ee t => if is_completed (st ee t) || existsb (Nat.eqb t) skip then ee
+                                   else emit (fuel_of ee) (set_state 30 ee t (if is (st ee t) SRunning then SAborted else SSkipped)) t) l e = e).
+  { induction l as [|t l IH]; intros Hl; cbn [fold_left]; [reflexivity|].
+    assert (E : is_completed (st e t) || existsb (Nat.eqb t) skip = true).
+    { destruct (Hall t (Hl t (or_introl eq_refl))) as [Hc | Hin]; [now rewrite Hc|]. apply orb_true_iff. right. apply existsb_exists. exists t. split; [exact Hin | apply Nat.eqb_refl]. }
+    rewrite E. apply IH. intros; apply Hl; now right. }
+  apply G. intros t Ht. apply in_seq in Ht. unfold ntasks. lia.
+Qed.
+Lemma abort_children_noop e l : (forall c, In c l -> is_completed (st e c) = true) ->
+  fold_left (fun ee c => if is (st ee c) SPending then emit (fuel_of ee) (set_state 29 ee c SSkipped) c
+                         else if is (st ee c) SRunning then emit (fuel_of ee) (set_state 29 ee c SAborted) c else ee) l e = e.
+Proof.
+  intros Hl. induction l as [|c l IH]; cbn [fold_left]; [reflexivity|].
+  pose proof (Hl c (or_introl eq_refl)) as Hc.
+  assert (E1 : is (st e c) SPending = false) by (destruct (st e c); simpl in *; congruence).
+  assert (E2 : is (st e c) SRunning = false) by (destruct (st e c); simpl in *; congruence).
+  rewrite E1, E2. apply IH. intros; apply Hl; now right.
+Qed.
+(* abort_up on one task: a running step / workflow with nothing open beneath it is written aborted and emitted *)
+Lemma close_up_good site X e t : SI e -> PX X e -> t < ntasks e -> st e t = SRunning -> kind e t <> KAct -> nochild e t ->
+  let e1 := emit (fuel_of e) (set_state site e t SAborted) t in
+  SI e1 /\ PX (fun x => X x \/ (parent e t = Some x /\ st e x = SRunning)) e1 /\ sameS e e1 /\
+  (forall x, st e1 x = if Nat.eqb x t then SAborted else st e x) /\
+  (forall g, parent e t = Some g -> st e1 g = SRunning /\ nochild e1 g).
+Proof.
+  intros H P Ht Hr Hk Hnc e1. set (es := set_state site e t SAborted) in *.
+  assert (Hs : SI es) by (apply SI_ss; auto; try discriminate).
+  assert (Ps : PX (fun x => X x \/ (parent e t = Some x /\ st e x = SRunning)) es) by (apply PX_close; auto).
+  assert (HSs : sameS e es) by apply sameS_set_state.
+  assert (Ss : forall x, st es x = if Nat.eqb x t then SAborted else st e x) by (intros x; apply (st_ss site e t SAborted x Ht)).
+  destruct (fuel_ge e) as [f Hf]. unfold e1. rewrite Hf.
+  assert (T : teq es (emit (S (S (S (S f)))) es t)).
+  { apply emit_teqS; [exact Hs | rewrite Ss, Nat.eqb_refl; discriminate|]. intros Hkw. destruct (Nat.eq_dec t 0) as [->|Hn]; [reflexivity|].
+    exfalso. destruct (si_task es Hs t ltac:(unfold es; rewrite ntasks_set_state; exact Ht)) as (_ & _ & _ & Hwf). apply Hwf; [lia | exact Hkw]. }
+  split; [eapply SI_teq; eauto|]. split; [eapply PX_teq; eauto|]. split; [apply (sameS_trans e es); [exact HSs | now apply sameS_teq]|].
+  split; [intros x; rewrite (teq_st _ _ x T); apply Ss|].
+  intros g Hg. assert (Ho : opn e t) by (unfold opn; rewrite Hr; reflexivity).
+  destruct (after_close site e t SAborted g H Ht Ho eq_refl Hg) as [A B]. fold es in A, B.
+  split; [rewrite (teq_st _ _ g T); exact A | eapply nochild_teq; eauto].
+Qed.
+Lemma abort_up_level f e t : SI e -> t < ntasks e -> st e t = SRunning -> nochild e t ->
+  let e1 := emit (fuel_of e) (set_state 28 e t SAborted) t in
+  sameS e e1 -> (forall x, st e1 x = if Nat.eqb x t then SAborted else st e x) ->
+  abort_up (S f) e (Some t) = abort_up f e1 (parent e t).
+Proof.
+  intros H Ht Hr Hnc e1 HS Hst. rewrite abort_up_S. rewrite Hr. change (is_completed SRunning) with false. cbv iota. fold e1.
+  rewrite (abort_children_noop e1 (children e1 t)).
+  - now rewrite (sameS_parent _ _ t HS).
+  - intros c Hc. rewrite (sameS_children _ _ t HS) in Hc. rewrite Hst. destruct (Nat.eqb c t); [reflexivity|].
+    apply (children_closed e t H Ht Hr Hnc c Hc).
+Qed.
+(* abort, part 1: what `perform` computes, as an equation *)
+Lemma perform_abort_eq e i cv :
+  perform e i AAbort cv =
+  (let e1 := close_open 26 e (siblings e i) SSkipped in
+   let e2 := emit (fuel_of e1) (set_data (set_state 27 e1 i SAborted) i cv) i in
+   let e3 := abort_sweep e2 (ancestors (S (length (tasks e2))) e2 (parent e2 i)) in
+   ret_ok (abort_up (S (length (tasks e3))) e3 (parent e3 i))).
+Proof. reflexivity. Qed.
+
+
+(* abort, part 2: from the state in which the act has been written aborted and emitted (only its step is excused) *)
+Lemma abort_stage2 e2 i pp : SI e2 -> i < ntasks e2 -> kind e2 i = KAct -> is_completed (st e2 i) = true -> parent e2 i = Some pp ->
+  st e2 pp = SRunning -> nochild e2 pp -> PX (fun t => t = pp) e2 ->
+  Good (ret_ok (abort_up (S (length (tasks (abort_sweep e2 (ancestors (S (length (tasks e2))) e2 (parent e2 i))))))
+                         (abort_sweep e2 (ancestors (S (length (tasks e2))) e2 (parent e2 i)))
+                         (parent (abort_sweep e2 (ancestors (S (length (tasks e2))) e2 (parent e2 i))) i))).
+Proof.
+  intros H2 Hi2 K2 C2 Hpp Rpp Ncpp P2.
+  assert (Kpp : kind e2 pp = KStep) by (apply (act_parent_step e2 i pp H2 Hi2 K2 Hpp)).
+  assert (Hppn : pp < ntasks e2) by (pose proof (parent_lt e2 i pp (SI_W e2 H2) Hi2 Hpp); lia).
+  assert (Hpp0 : 0 < pp) by (destruct pp; [rewrite (SI_root_kind e2 H2) in Kpp; discriminate | lia]).
+  destruct (has_parent e2 pp H2 Hpp0 Hppn) as (g & Hg). pose proof (step_parent_root e2 pp g H2 Hppn Kpp Hg). subst g.
+  assert (Hpar0 : parent e2 0 = None) by (unfold parent; destruct (si_root e2 H2) as (_ & -> & _); reflexivity).
+  assert (Hlen : exists m, length (tasks e2) = S (S m)) by (unfold ntasks in *; destruct (length (tasks e2)) as [|[|m]]; [lia | lia | eauto]).
+  destruct Hlen as [m Hlen].
+  assert (Hanc : ancestors (S (length (tasks e2))) e2 (parent e2 i) = [pp; 0]).
+  { rewrite Hpp, Hlen. cbn [ancestors]. rewrite Hg. cbn [ancestors]. rewrite Hpar0. reflexivity. }
+  assert (Hsweep : abort_sweep e2 (ancestors (S (length (tasks e2))) e2 (parent e2 i)) = e2).
+  { apply sweep_noop. intros t Ht. destruct (is_completed (st e2 t)) eqn:Ec; [now left|]. right. rewrite Hanc.
+    destruct (open_after_act_closed e2 i pp H2 Hi2 K2 C2 Hpp Rpp Ncpp t Ht Ec) as [-> | ->]; [now left | right; now left]. }
+  rewrite Hsweep, Hpp, Hlen.
+  destruct (close_up_good 28 (fun t => t = pp) e2 pp H2 P2 Hppn Rpp ltac:(rewrite Kpp; discriminate) Ncpp) as (H3 & P3 & HS3 & S3 & Q3).
+  rewrite (abort_up_level (S (S m)) e2 pp H2 Hppn Rpp Ncpp HS3 S3), Hg.
+  generalize dependent (emit (fuel_of e2) (set_state 28 e2 pp SAborted) pp). intros e3 H3 P3 HS3 S3 Q3.
+  destruct (Q3 0 Hg) as [R0 Nc0].
+  assert (H0n : 0 < ntasks e3) by (destruct HS3 as (_ & L & _); rewrite L; lia).
+  assert (K0 : kind e3 0 <> KAct) by (rewrite (sameS_kind _ _ 0 HS3), (SI_root_kind e2 H2); discriminate).
+  assert (Hpar3 : parent e3 0 = None) by (rewrite (sameS_parent _ _ 0 HS3); exact Hpar0).
+  destruct (close_up_good 28 _ e3 0 H3 P3 H0n R0 K0 Nc0) as (H4 & P4 & HS4 & S4 & Q4).
+  rewrite (abort_up_level (S m) e3 0 H3 H0n R0 Nc0 HS4 S4), Hpar3.
+  generalize dependent (emit (fuel_of e3) (set_state 28 e3 0 SAborted) 0). intros e4 H4 P4 HS4 S4 Q4.
+  assert (Hend : forall k, abort_up k e4 None = e4) by (intros [|k]; reflexivity). rewrite Hend.
+  apply (Good_teq _ _ (teq_ret_ok _)). split; [exact H4|].
+  apply (PX_weaken _ _ _ P4). intros t [[Hx | Hx] | Hx] Ht Ho.
+  - subst t. unfold opn in Ho. rewrite S4 in Ho. destruct (Nat.eqb pp 0); [discriminate|]. rewrite S3, Nat.eqb_refl in Ho. discriminate.
+  - destruct Hx as [Hx _]. rewrite Hg in Hx. inversion Hx; subst t. unfold opn in Ho. rewrite S4, Nat.eqb_refl in Ho. discriminate.
+  - destruct Hx as [Hx _]. rewrite Hpar3 in Hx. discriminate.
+Qed.
+Lemma abort_good e i cv : Good e -> i < ntasks e -> opn e i -> kind e i = KAct -> Good (perform e i AAbort cv).
+Proof.
+  intros G Hi Eo Ek. pose proof G as [H P]. rewrite perform_abort_eq.
+  rewrite (close_open_noop 26 e (siblings e i) SSkipped) by (apply siblings_closed; auto). cbv zeta.
+  destruct (Prog_close_act 27 e i SAborted G Hi Eo Ek eq_refl eq_refl) as (H1 & P1 & S1 & K1 & L1 & Q1).
+  set (x2 := emit (fuel_of e) (set_data (set_state 27 e i SAborted) i cv) i).
+  assert (T2 : teq (set_state 27 e i SAborted) x2).
+  { eapply teq_trans; [apply teq_set_data|]. destruct (fuel_ge e) as [f Hf]. unfold x2. rewrite Hf. apply emit_teq.
+    - eapply nohooks_teq; [apply teq_set_data | apply (si_nh _ H1)].
+    - rewrite (teq_st _ _ i (teq_set_data _ i cv)), S1. discriminate.
+    - rewrite (teq_kind _ _ i (teq_set_data _ i cv)), K1. discriminate. }
+  assert (H2 : SI x2) by (eapply SI_teq; eauto).
+  assert (Hi2 : i < ntasks x2) by (rewrite (teq_len _ _ T2); exact L1).
+  assert (K2 : kind x2 i = KAct) by (now rewrite (teq_kind _ _ i T2)).
+  assert (C2 : is_completed (st x2 i) = true) by (now rewrite (teq_st _ _ i T2), S1).
+  assert (Hi0 : 0 < i) by (destruct i; [rewrite (SI_root_kind e H) in Ek; discriminate | lia]).
+  destruct (has_parent x2 i H2 Hi0 Hi2) as (pp & Hpp).
+  assert (Hppa : parent (set_state 27 e i SAborted) i = Some pp) by (now rewrite <- (teq_parent _ _ i T2)).
+  destruct (Q1 pp Hppa) as [Rpa Nca].
+  assert (Rpp : st x2 pp = SRunning) by (now rewrite (teq_st _ _ pp T2)).
+  assert (Ncpp : nochild x2 pp) by (eapply nochild_teq; eauto).
+  assert (P2 : PX (fun t => t = pp) x2).
+  { apply (PX_weaken _ _ _ (PX_teq _ _ _ T2 P1)). intros t [Ht1 _] _ _. left. rewrite Hppa in Ht1. now inversion Ht1. }
+  clearbody x2. now apply (abort_stage2 x2 i pp).
+Qed.
 Lemma action_good e i a opts : Good e -> allowed a = true -> Good (do_action e i a opts).
 Proof.
   intros G Ha. unfold do_action. destruct (admission e i a opts) as [[cv a']|] eqn:Ead.
@@ -902,15 +1102,16 @@ Proof.
   destruct (is_completed (st e i)) eqn:Eo; [discriminate|]. inversion Ead; subst a'. clear Ead.
   unfold perform. destruct (fuel_ge e) as [f Hf].
   destruct a; simpl in Ha; try discriminate.
-  - destruct (Prog_close_act 22 e i SCompleted G Hi Eo Ek ltac:(auto)) as (H1 & P1 & S1 & K1 & L1 & Q1).
+  - destruct (Prog_close_act 22 e i SCompleted G Hi Eo Ek eq_refl eq_refl) as (H1 & P1 & S1 & K1 & L1 & Q1).
     apply (Good_teq _ _ (teq_ret_ok _)). apply next_closed_act; [exact H1 | exact L1 | exact K1 | rewrite S1; auto | exact P1 | exact Q1 | rewrite Hf; lia].
-  - destruct (Prog_close_act 23 e i SSubmitted G Hi Eo Ek ltac:(auto)) as (H1 & P1 & S1 & K1 & L1 & Q1).
+  - destruct (Prog_close_act 23 e i SSubmitted G Hi Eo Ek eq_refl eq_refl) as (H1 & P1 & S1 & K1 & L1 & Q1).
     apply (Good_teq _ _ (teq_ret_ok _)). apply next_closed_act; [exact H1 | exact L1 | exact K1 | rewrite S1; auto | exact P1 | exact Q1 | rewrite Hf; lia].
-  - destruct (Prog_close_act 24 e i SRemoved G Hi Eo Ek ltac:(auto)) as (H1 & P1 & S1 & K1 & L1 & Q1).
+  - destruct (Prog_close_act 24 e i SRemoved G Hi Eo Ek eq_refl eq_refl) as (H1 & P1 & S1 & K1 & L1 & Q1).
     apply (Good_teq _ _ (teq_ret_ok _)). apply next_closed_act; [exact H1 | exact L1 | exact K1 | rewrite S1; auto | exact P1 | exact Q1 | rewrite Hf; lia].
   - rewrite (close_open_noop 26 e (siblings e i) SSkipped) by (apply siblings_closed; [apply G | exact Hi | exact Eo]).
-    destruct (Prog_close_act 25 e i SSkipped G Hi Eo Ek ltac:(auto)) as (H1 & P1 & S1 & K1 & L1 & Q1).
+    destruct (Prog_close_act 25 e i SSkipped G Hi Eo Ek eq_refl eq_refl) as (H1 & P1 & S1 & K1 & L1 & Q1).
     apply (Good_teq _ _ (teq_ret_ok _)). apply next_closed_act; [exact H1 | exact L1 | exact K1 | rewrite S1; auto | exact P1 | exact Q1 | rewrite Hf; lia].
+  - now apply abort_good.
 Qed.
 
 (* ---------- the scheduler runs a queued task ---------- *)
@@ -1074,10 +1275,6 @@ Proof.
 Qed.
 
 
-Lemma sameS_trans a b c : sameS a b -> sameS b c -> sameS a c.
-Proof.
-  intros (A1 & A2 & A3) (B1 & B2 & B3). split; [congruence|]. split; [congruence|]. intros t. destruct (A3 t), (B3 t). split; congruence.
-Qed.
 (* the state after Task::init's first write, with what is needed of it *)
 Lemma init_state e i : SI e -> PX (fun t => t = i) e -> i < ntasks e -> st e i = SNone -> ~ In i (queue e) ->
   let a := set_state 1 (set_data e i (inputs e i)) i SReady in
@@ -1564,19 +1761,6 @@ Proof.
 Qed.
 
 (* ---------- C03 on the class: hierarchical completion ---------- *)
-Lemma has_parent e j : SIa e -> 0 < j -> j < ntasks e -> exists p, parent e j = Some p.
-Proof.
-  intros H Hj0 Hj. unfold parent.
-  assert (Hl : 1 <= n_level (tnode e j)).
-  { rewrite (SIa_level e j H Hj). destruct (sia_task e H j Hj) as (_ & _ & _ & Hwf). specialize (Hwf Hj0). destruct (kind e j); cbn [lvl_of]; try lia. congruence. }
-  assert (G : forall q f, q < f -> q < ntasks e -> exists p, parent_from f e (n_level (tnode e j)) (Some q) = Some p).
-  { induction q as [q IH] using lt_wf_ind. intros f Hf Hq. destruct f as [|f]; [lia|]. cbn [parent_from].
-    destruct (Nat.ltb_spec (n_level (tnode e q)) (n_level (tnode e j))) as [Hlt|Hge]; [eauto|].
-    destruct q as [|q].
-    - exfalso. rewrite (SIa_level e 0 H Hq), (SIa_root_kind e H) in Hge. cbn [lvl_of] in Hge. lia.
-    - destruct (sia_prev e H (S q) ltac:(lia) Hq) as (r & -> & Hr & _). apply IH; lia. }
-  destruct (sia_prev e H j Hj0 Hj) as (q & -> & Hq & _). apply G; unfold ntasks in *; lia.
-Qed.
 Theorem good_hierarchy e : SI e ->
   open_under_completed e = false /\ (is_completed (st e 0) = true -> forall j, j < ntasks e -> is_completed (st e j) = true).
 Proof.
@@ -1600,3 +1784,9 @@ Proof. intros F Hops e. apply good_hierarchy. apply (run_good ns c0 ops F Hops).
 Theorem class_runs_total ns c0 ops : frag_nodes ns = true -> forallb frag_op ops = true ->
   oof (run ns c0 ops) = false /\ exn (run ns c0 ops) = false.
 Proof. intros F Hops. destruct (run_good ns c0 ops F Hops) as [H _]. split; [apply (si_oof _ H) | apply (si_exn _ H)]. Qed.
+
+(* ... and an abort of the waiting act closes its step and the workflow *)
+Lemma w_seq_abort : option_map (fun e => (queue e, pstate e, map (fun t => st e t) (all_tasks e), forallb frag_op [OAct 2 AAbort []; ODrain]))
+                               (go w_seq [OAct 2 AAbort []; ODrain])
+  = Some ([], SAborted, [SAborted; SAborted; SAborted], true).
+Proof. vm_compute. reflexivity. Qed.
